@@ -1,1 +1,138 @@
+// Kani harnesses for C04 (k-NN regressor), child module of src/neighbors/knn_regressor.rs.
+// KNNRegressor::predict_for_row: "the prediction is the weighted mean of the targets of the k nearest neighbours".
+// The estimator is assembled field by field (fit is not harnessed): n = 3 training points, the linear search over the
+// harness metric below, fixed k, targets y[i] in {0.0, 1.0}.
+//
+// Points are one-element rows [id]; the metric is a symbolic symmetric table with entries from {0.0, 1.0, 2.0, 3.0}
+// indexed by id; the query is the row [3.0], a point outside the training set.  With uniform weights every term of the
+// sum is 0 or 1/k, so the result depends only on HOW MANY of the k nearest targets are 1; the expected value for each
+// count is produced by the same left fold on constants (0 + 1/k + .. + 1/k), no arithmetic on symbolic values in the
+// harness.  The neighbours are those that `find` (harnessed on its own in c04_linear_knn.rs) returns for the same query.
 use super::*;
+use crate::algorithm::neighbour::linear_search::LinearKNNSearch;
+
+const IDS: usize = 4;
+
+#[derive(Clone)]
+struct TableMetricV {
+    t: [[f64; IDS]; IDS],
+}
+
+impl Distance<Vec<f64>, f64> for TableMetricV {
+    fn distance(&self, a: &Vec<f64>, b: &Vec<f64>) -> f64 {
+        self.t[a[0] as usize][b[0] as usize]
+    }
+}
+
+fn pick_d() -> f64 {
+    let s: u8 = kani::any();
+    kani::assume(s < 4);
+    match s {
+        0 => 0.0,
+        1 => 1.0,
+        2 => 2.0,
+        _ => 3.0,
+    }
+}
+
+fn any_table() -> TableMetricV {
+    let mut t = [[0.0f64; IDS]; IDS];
+    for a in 0..IDS {
+        for b in (a + 1)..IDS {
+            let d = pick_d();
+            t[a][b] = d;
+            t[b][a] = d;
+        }
+    }
+    TableMetricV { t }
+}
+
+fn regressor(metric: TableMetricV, y: [bool; 3], weight: KNNWeightFunction, k: usize) -> KNNRegressor<f64, TableMetricV> {
+    let search = match LinearKNNSearch::new(vec![vec![0.0], vec![1.0], vec![2.0]], metric) {
+        Ok(s) => s,
+        Err(_) => {
+            kani::assume(false);
+            loop {}
+        }
+    };
+    let f = |b: bool| if b { 1.0f64 } else { 0.0f64 };
+    KNNRegressor {
+        y: vec![f(y[0]), f(y[1]), f(y[2])],
+        knn_algorithm: KNNAlgorithm::LinearSearch(search),
+        weight,
+        k,
+    }
+}
+
+macro_rules! h_regress_uniform {
+    ($name:ident, $k:expr, $unw:expr) => {
+        #[kani::proof]
+        #[kani::unwind($unw)]
+        fn $name() {
+            const K: usize = $k;
+            let metric = any_table();
+            let y: [bool; 3] = kani::any();
+            let knn = regressor(metric, y, KNNWeightFunction::Uniform, K);
+            let mut ones = 0usize;
+            {
+                let nb = match knn.knn_algorithm.find(&vec![3.0], K) {
+                    Ok(nb) => nb,
+                    Err(_) => {
+                        assert!(false, "KNNRegressor::predict_for_row: the neighbour query succeeds for 1 <= k <= n");
+                        return;
+                    }
+                };
+                assert!(nb.len() == K, "KNNRegressor::predict_for_row: k neighbours are consulted");
+                for e in 0..K {
+                    if y[nb[e].0] {
+                        ones += 1;
+                    }
+                }
+            }
+            let p = match knn.predict_for_row(vec![3.0]) {
+                Ok(p) => p,
+                Err(_) => {
+                    assert!(false, "KNNRegressor::predict_for_row: succeeds for 1 <= k <= n");
+                    return;
+                }
+            };
+            // mean of `ones` ones and K - ones zeros as the code folds it: 0 + 1/K + .. + 1/K (adding a zero term is exact)
+            let share = 1.0f64 * (1.0f64 / (K as f64));
+            let mut expect = [0.0f64; K + 1];
+            for c in 1..K + 1 {
+                expect[c] = expect[c - 1] + share;
+            }
+            assert!(p == expect[ones], "KNNRegressor::predict_for_row (uniform weights): the prediction is the mean of the targets of the k nearest neighbours");
+            kani::cover!(ones == K);
+            kani::cover!(ones == 0);
+        }
+    };
+}
+h_regress_uniform!(c04_knn_regress_uniform_n3_k1, 1, 10);
+h_regress_uniform!(c04_knn_regress_uniform_n3_k2, 2, 10);
+h_regress_uniform!(c04_knn_regress_uniform_n3_k3, 3, 10);
+
+// distance weights, exactly one exact match (distance 0) of the query among the training points, k = n = 3:
+// the exact match takes all the weight, so the prediction is its target.
+#[kani::proof]
+#[kani::unwind(10)]
+fn c04_knn_regress_exact_match_n3_k3() {
+    let metric = any_table();
+    let y: [bool; 3] = kani::any();
+    let t = metric.t;
+    let m: usize = kani::any();
+    kani::assume(m < 3);
+    for i in 0..3 {
+        kani::assume((t[3][i] == 0.0) == (i == m));
+    }
+    let knn = regressor(metric, y, KNNWeightFunction::Distance, 3);
+    let p = match knn.predict_for_row(vec![3.0]) {
+        Ok(p) => p,
+        Err(_) => {
+            assert!(false, "KNNRegressor::predict_for_row: succeeds for 1 <= k <= n");
+            return;
+        }
+    };
+    assert!(p == if y[m] { 1.0 } else { 0.0 }, "KNNRegressor::predict_for_row (distance weights): an exact-match neighbour takes all the weight (the prediction is its target)");
+    kani::cover!(m == 2 && y[2] && !y[0] && !y[1]);
+}
